@@ -155,3 +155,29 @@ def parse(text: str):
     for d in (builtin.Builtin, arith.Arith, func.Func, scf.Scf, cf.Cf):
         ctx.load_dialect(d)
     return Parser(ctx, text).parse_module()
+
+
+def loop_family():
+    """Every scf.for with constant lb in -2..3, ub in -1..5, step in 1..3: returns (sum of iv + arg, trip count, last iv + 1)."""
+    for lb in range(-2, 4):
+        for ub in range(-1, 6):
+            for st in (1, 2, 3):
+                text = f"""builtin.module {{
+  func.func @main(%a0 : i16) -> (i16, i16, i16) {{
+    %lb = arith.constant {lb} : index
+    %ub = arith.constant {ub} : index
+    %st = arith.constant {st} : index
+    %z = arith.constant 0 : i16
+    %one = arith.constant 1 : i16
+    %init_last = arith.constant -7 : i16
+    %s, %n, %l = scf.for %i = %lb to %ub step %st iter_args(%acc = %a0, %cnt = %z, %last = %init_last) -> (i16, i16, i16) {{
+      %iv = arith.index_cast %i : index to i16
+      %acc2 = arith.addi %acc, %iv : i16
+      %cnt2 = arith.addi %cnt, %one : i16
+      %l2 = arith.addi %iv, %one : i16
+      scf.yield %acc2, %cnt2, %l2 : i16, i16, i16
+    }}
+    func.return %s, %n, %l : i16, i16, i16
+  }}
+}}"""
+                yield text, [16], [16, 16, 16]
